@@ -110,6 +110,79 @@ theorem check_shape_sound_partial (names : List String) (sh1 sh2 : Shape) (b0 b1
     · rw [heq] at hk; exact hk
   exact conforms_known_unique σ sh1 r1 r2 hk' c1 c2
 
+/-- on `onnx_ir` dims Python `==` is structural equality of the model's `Dim` (two unnamed dims are "equal") -/
+theorem pyEq_iff_eq (d e : Dim) : d.pyEq e = true ↔ d = e := by
+  cases d <;> cases e <;> simp [Dim.pyEq]
+
+/-- **`check_shape_same_static_shape`** (FULL, no hypothesis): two values that pass `check_shape` against the same
+name list have the same static shape, dim by dim — including unnamed dims, which compare equal. -/
+theorem check_shape_same_static_shape (names : List String) (sh1 sh2 : Shape) (b0 b1 b2 : Bindings)
+    (h1 : checkShape b0 (some sh1) names = some b1) (h2 : checkShape b1 (some sh2) names = some b2) :
+    sh2 = sh1 := by
+  have hl1 : sh1.length = names.length := by
+    unfold checkShape at h1; by_cases hl : sh1.length = names.length
+    · exact hl
+    · simp [hl] at h1
+  have hl2 : sh2.length = names.length := by
+    unfold checkShape at h2; by_cases hl : sh2.length = names.length
+    · exact hl
+    · simp [hl] at h2
+  have u1 : unify b0 (sh1.zip names) = some b1 := by
+    unfold checkShape at h1; simpa [hl1] using h1
+  have u2 : unify b1 (sh2.zip names) = some b2 := by
+    unfold checkShape at h2; simpa [hl2] using h2
+  apply List.ext_getElem (by omega)
+  intro i hi2 hi1
+  have hin : i < names.length := by omega
+  have m1 : (sh1[i], names[i]) ∈ sh1.zip names := by
+    have : (sh1.zip names)[i]'(by simp [List.length_zip]; omega) = (sh1[i], names[i]) := by simp
+    rw [← this]; exact List.getElem_mem _
+  have m2 : (sh2[i], names[i]) ∈ sh2.zip names := by
+    have : (sh2.zip names)[i]'(by simp [List.length_zip]; omega) = (sh2[i], names[i]) := by simp
+    rw [← this]; exact List.getElem_mem _
+  obtain ⟨e1, he1, hp1⟩ := unify_bound _ _ _ u1 _ m1
+  obtain ⟨e2, he2, hp2⟩ := unify_bound _ _ _ u2 _ m2
+  have hmono := unify_mono _ _ _ u2 _ _ he1
+  simp only at he1 he2 hp1 hp2 hmono
+  rw [hmono] at he2
+  have hee : e2 = e1 := (Option.some.inj he2).symm
+  subst hee
+  rw [(pyEq_iff_eq _ _).mp hp1, (pyEq_iff_eq _ _).mp hp2]
+
+/-- a conforming runtime shape is determined at every position whose static dim is named or an integer -/
+theorem conforms_at (σ : String → Nat) : ∀ (sh : Shape) (r : List Nat), Conforms σ sh r →
+    ∀ (i : Nat) (d : Dim), sh[i]? = some d → d.isKnown = true →
+      r[i]? = some (match d with | .int n => n | .sym s => σ s | .unk => 0) := by
+  intro sh
+  induction sh with
+  | nil => intro r _ i d hd; simp at hd
+  | cons a as ih =>
+    intro r hc i d hd hk
+    cases r with
+    | nil => simp [Conforms] at hc
+    | cons x xs =>
+      simp only [Conforms] at hc
+      cases i with
+      | zero =>
+        simp only [List.getElem?_cons_zero, Option.some.injEq] at hd
+        subst hd
+        cases a <;> simp_all [Dim.isKnown]
+      | succ j =>
+        simp only [List.getElem?_cons_succ] at hd ⊢
+        exact ih xs hc.2 j d hd hk
+
+/-- **`check_shape_sound_positionwise`** — the sharpest form: after two successful checks against the same names,
+under EVERY valuation `σ` and for EVERY pair of conforming runtime shapes, the runtime sizes agree at every position
+whose (common) static dim is an integer or a named symbol.  Nothing is claimed exactly at the positions holding an
+unnamed dim, and there nothing can be (`check_shape_sound_full_refuted`, finding C19-F2). -/
+theorem check_shape_sound_positionwise (names : List String) (sh1 sh2 : Shape) (b0 b1 b2 : Bindings)
+    (h1 : checkShape b0 (some sh1) names = some b1) (h2 : checkShape b1 (some sh2) names = some b2)
+    (σ : String → Nat) (r1 r2 : List Nat) (c1 : Conforms σ sh1 r1) (c2 : Conforms σ sh2 r2)
+    (i : Nat) (d : Dim) (hd : sh1[i]? = some d) (hk : d.isKnown = true) : r1[i]? = r2[i]? := by
+  have heq := check_shape_same_static_shape names sh1 sh2 b0 b1 b2 h1 h2
+  rw [heq] at c2
+  rw [conforms_at σ sh1 r1 c1 i d hd hk, conforms_at σ sh1 r2 c2 i d hd hk]
+
 /-- The statement without the "no unknown dim" hypothesis is false: `[?]` and `[?]` unify (in `onnx_ir`,
 `SymbolicDim(None) == SymbolicDim(None)`), yet runtime sizes 2 and 1 both conform.  Replayed on the real code
 as finding C19-F2 (SkipLayerNormalization returns `[1,2,4]` where the original returned `[2,2,4]`). -/
@@ -948,6 +1021,76 @@ theorem extract_dim_needs_unit_step (i : ExtractIn) (h : extractOk i = true) : i
 example : pySlice ["dim0", "dim2", "dim1", "dim3"] 1 (-1) = ["dim2", "dim1"]
     ∧ pySlice ["dim0", "dim2", "dim1", "dim3"] (-5) 9223372036854775807 = ["dim0", "dim2", "dim1", "dim3"]
     ∧ pySlice ["dim0", "dim2", "dim1", "dim3"] 3 1 = [] := by decide
+
+
+/-! ## Round 4: `sdpa_via_mha` and the cos/sin cache as identities -/
+
+/-- **`sdpa_via_mha_head_sizes`** — for EVERY head count `H > 0`, query/key head size `Dh` and value head size `Dv`:
+after `Transpose(0,2,1,3)` + `Reshape([0,0,-1])` the hidden sizes are `H·Dh` and `H·Dv`, so the head size
+`MultiHeadAttention(num_heads = H)` derives for its default scale is `Dh` — the SDPA's — and the `Reshape([0,0,H,-1])`
+of the result infers `Dv`; neither depends on the other. -/
+theorem sdpa_via_mha_head_sizes (H Dh Dv : Nat) (hH : 0 < H) :
+    (H * Dh) / H = Dh ∧ (H * Dv) / H = Dv := by
+  exact ⟨Nat.mul_div_cancel_left Dh hH, Nat.mul_div_cancel_left Dv hH⟩
+
+section ViaMha
+variable {K : Type} [Field K]
+
+/-- **`sdpa_via_mha_default_scale`**: with no `scale` attribute both operators scale the scores by `rsqrt` of the
+*query* head size; the one MHA derives (`hidden / num_heads` of the reshaped query) is the SDPA's `Dh` for every
+`H > 0`, `Dh`, `Dv` — it is never the value head size.  (`rsqrt` abstract.) -/
+theorem sdpa_via_mha_default_scale (rsqrt : Nat → K) (H Dh Dv : Nat) (hH : 0 < H) :
+    rsqrt ((H * Dh) / H) = rsqrt Dh ∧ (Dv ≠ Dh → (H * Dh) / H ≠ Dv) := by
+  rw [Nat.mul_div_cancel_left Dh hH]
+  exact ⟨rfl, fun h => fun e => h e.symm⟩
+
+/-- the 3-D operand MHA receives: column `c` of row `(b,s)` is element `(b, c / Dh, s, c % Dh)` of the 4-D tensor
+(that is what `Transpose(0,2,1,3)` + `Reshape([0,0,-1])` do; `heads_split_layout` is the offset computation) -/
+def to3d (Dh : Nat) (x : Nat → Nat → K) (c : Nat) : K := x (c / Dh) (c % Dh)
+
+/-- **`sdpa_via_mha_score`** — for EVERY head size `Dh`, head index `h`, all values and every scale `c`: the score
+MHA computes for head `h` from the 3-D operands (columns `h·Dh … h·Dh+Dh-1`) equals the SDPA's score
+`(q[h] · k[h]) · c` on the 4-D operands. -/
+theorem sdpa_via_mha_score (Dh : Nat) (q k : Nat → Nat → K) (h : Nat) (c : K) :
+    (∑ d : Fin Dh, to3d Dh q (h * Dh + d) * to3d Dh k (h * Dh + d)) * c = (∑ d : Fin Dh, q h d * k h d) * c := by
+  congr 1
+  refine Finset.sum_congr rfl (fun d _ => ?_)
+  obtain ⟨e1, e2⟩ := heads_split_unique Dh h d d.isLt
+  simp only [to3d, e1, e2]
+
+/-- … and the attention output: column `h·Dv + d` of MHA's 3-D result is element `(h, d)` of the value-weighted sum,
+which `Reshape([0,0,H,-1])` + `Transpose(0,2,1,3)` put back at `(b,h,s,d)` — for every `Dv`, independently of `Dh`. -/
+theorem sdpa_via_mha_output (Dv : Nat) (o : Nat → Nat → K) (h d : Nat) (hd : d < Dv) :
+    to3d Dv o (h * Dv + d) = o h d := by
+  obtain ⟨e1, e2⟩ := heads_split_unique Dv h d hd
+  simp only [to3d, e1, e2]
+
+end ViaMha
+
+/-- The model's `replace_sdpa_by_mha` builds exactly those layouts for every `num_heads` and both key formats. -/
+theorem via_mha_shapes (fmt : String) (h : Nat) :
+    (viaMha fmt h).to3d = [0, 0, -1] ∧ (viaMha fmt h).to4d = [0, 0, (h : Int), -1]
+    ∧ (viaMha fmt h).qPerm = some [0, 2, 1, 3] ∧ (viaMha fmt h).vPerm = some [0, 2, 1, 3]
+    ∧ (viaMha fmt h).outPerm = [0, 2, 1, 3] ∧ (viaMha fmt h).numHeads = h
+    ∧ ((viaMha fmt h).kPerm = none ↔ fmt ≠ "BHSd") := by
+  unfold viaMha
+  refine ⟨rfl, rfl, rfl, rfl, rfl, rfl, ?_⟩
+  by_cases hf : fmt = "BHSd" <;> simp [hf]
+
+section CosSinCache
+variable {K : Type} [Field K]
+
+/-- **`cos_sin_cache_identity`** — the HF computation `cos(Concat(freqs, freqs))` with
+`freqs[b,s,i] = inv_freq[i] · float(position_ids[b,s])` equals a lookup of row `position_ids[b,s]` in the cache
+`cos_cache[p, i] = cos(float(p) · inv_freq[i])` that the rewrite builds, duplicated over the two halves — for every
+half width `h`, every position, every column `j < 2h`, any `cos`/`sin` function and any int→float `cast`.  The
+duplicated form is exactly the `cos`/`sin` shape `rotary_halves` assumes. -/
+theorem cos_sin_cache_identity (f : K → K) (cast : Nat → K) (inv : Nat → K) (h pos j : Nat) :
+    (if j < h then f (inv j * cast pos) else f (inv (j - h) * cast pos))
+      = (if j < h then (fun p i => f (cast p * inv i)) pos j else (fun p i => f (cast p * inv i)) pos (j - h)) := by
+  by_cases hj : j < h <;> simp only [hj, if_true, if_false, mul_comm]
+
+end CosSinCache
 
 /-! ## Decisions: facts about the transcribed checks -/
 
